@@ -5,6 +5,12 @@ from .. import heap as H, rx, strlang, cfg, paths, normalize
 from ..core import AnalysisError, norm, walk_no_nested
 from . import C10, common
 
+
+def _OS_FIELDS(src):
+    from .common import ordered_set_fields
+    return ordered_set_fields(src)
+
+
 META = {
     'design_ref': 'DESIGN.md §5 C05',
     'technique': "shape-case abstract interpretation of set/remove on both paragraph implementations and of the final-newline helper; __setitem__ and set_field_to_simple_value interpreted on symbolic strings by cases (F / F\\n / F\\nR\\n / F\\nR') against the specified calls; set_field_from_raw_string unfolded into paths (helpers inlined): per-line acceptance as regular languages, validate-before-commit on every committing path; comment hand-over by object identity; line-primitive rule; capture agreement of the field-line regex with the Policy 5.1 field-name language; frame obligation on the final-newline helper chain (nothing but the missing line end changes), interpreted on lines with every part present; no store into the paragraph or its existing field is followed by a refusal (path rule)",
@@ -81,7 +87,7 @@ def r1b_helper(rep, src):
             table = heap.new_dict()
             for k, n in zip(names, nodes):
                 heap.objs[table.name]['entries'].append((k, n))
-            oset = heap.alloc('OrderedSet', {'_OrderedSet__table': table, '_OrderedSet__order': lst})
+            oset = heap.alloc('OrderedSet', {_OS_FIELDS(src)[0]: table, _OS_FIELDS(src)[1]: lst})
             d = heap.new_dict()
             for k, kv in zip(names, kvs):
                 heap.objs[d.name]['entries'].append((k, kv))
